@@ -254,6 +254,10 @@ func runC01(c *Ctx) {
 	checkOffsetConvention(c, "offset-convention")
 	checkReadAccounting(c, "read.bytes-accounted")
 	checkEOFByIdentity(c, "read.eof-by-identity")
+	if n := checkReadCountConsumed(c, "read.count-before-eof"); n < 2 {
+		c.fail("read.count-before-eof", "instances", "-", "expected at least 2 Read loops in the data path, found "+itoa(n))
+	}
+	checkWriterIntakeClosedWorld(c, "writer.intake-closed-world")
 }
 
 // checkWriterHandoff: ownership of the buffer given to `go pFlush`.
@@ -765,6 +769,9 @@ func runC02(c *Ctx) {
 	}
 	// dedup: stored content is not rewritten on stores that report no checksum (shared with C15)
 	checkCRCOptional(c, "dedup.crc-optional")
+	checkReadCountConsumed(c, "chunking-independence.count-before-eof")
+	checkWriterIntakeClosedWorld(c, "chunking-independence.intake-closed-world")
+	checkFlushGuard(c, "tree-format.empty-tail-adds-no-leaf")
 }
 
 func isFoundAndNotOverwrite(f *FuncInfo, e ast.Expr) bool {
